@@ -390,7 +390,16 @@ func c02(r *Run) {
 							}
 						}
 					})
-					if nSt > 0 && nSt == nSame {
+					// ... and that value is the node's own root where it has one: a phi with a load of node.origin among its edges
+					fromOrigin := false
+					if phi, isPhi := fa.X.(*ssa.Phi); isPhi {
+						for _, e := range phi.Edges {
+							if _, isO := loadOfField(e, "linkBufferNode", "origin"); isO {
+								fromOrigin = true
+							}
+						}
+					}
+					if nSt > 0 && nSt == nSame && fromOrigin {
 						okRoot = true
 					}
 				}
